@@ -41,6 +41,9 @@ def gen_history(rng, tier):
         nq = rng.choice([None, None, 3, 4, 5])
         width = nq or rng.randint(2, 4)
         gs = LC.rand_gate_list(rng, width, rng.randint(0, 6), GATE_NAMES)
+        if nq is None and rng.random() < 0.3:
+            # sparse index set with gaps reaching indices >= 8
+            gs = LC.embed_specs(gs, LC.sparse_embedding(rng, width))
         ops.append(("new", gs, nq))
         n_store += 1
 
@@ -267,19 +270,24 @@ def gen_malformed(rng):
     pool_bad = [-1, -3, 1.0, 2.5, True, np.int64(1), "0", None]
 
     def idx(allow_bad):
-        if allow_bad and rng.random() < 0.35:
+        if allow_bad and rng.random() < 0.25:
             return rng.choice(pool_bad)
         return rng.randint(0, 4)
     name = rng.choice(GATE_NAMES + ["FOO", "CFOO"])
     nt = rng.choice([1, 1, 1, 2, 2, 3, 0])
     target = [idx(True) for _ in range(nt)]
-    if rng.random() < 0.15 and nt >= 2:
-        target[1] = target[0]
     control = None
-    if rng.random() < 0.55:
-        control = [idx(True) for _ in range(rng.choice([1, 1, 2, 0]))]
-        if control and target and rng.random() < 0.2:
-            control[0] = target[0]
+    if rng.random() < 0.6:
+        control = [idx(True) for _ in range(rng.choice([1, 1, 2, 2, 3, 0]))]
+    # designated duplicate patterns: inside the targets, inside the controls only, across both
+    r = rng.random()
+    if r < 0.12 and nt >= 2:
+        target[1] = target[0]
+    elif r < 0.30 and control and len(control) >= 2:
+        i, j = rng.sample(range(len(control)), 2)
+        control[j] = control[i]
+    elif r < 0.42 and control and target:
+        control[rng.randrange(len(control))] = target[rng.randrange(len(target))]
     return name, target, control
 
 
@@ -415,7 +423,7 @@ def run(ck):
                              k, kind, sa[k][:600] if k < len(sa) else None, sb[k][:600] if k < len(sb) else None),
                          {"kind": "history", "ops": json.loads(json.dumps(h, default=str)), "step": k},
                          found_input=False)
-    run_malformed(ck, 150 if ck.tier == "quick" else 2500)
+    run_malformed(ck, 900 if ck.tier == "quick" else 8000)
     if ck.notes.get("new_writer_sites") and not any(v["found_input"] for v in ck.violations):
         ck.violation("C11/inventory/new-writer-site", "new write through a parameter: %s" % ck.notes["new_writer_sites"],
                      {"kind": "inventory", "sites": ck.notes["new_writer_sites"]}, found_input=False)
